@@ -28,6 +28,7 @@ def run(rep, tier, seed):
     try:
         # (1) handler tables (in a forked child: an unrepaired table crashes the interpreter)
         ctrait_tables.run_binding_isolated(rep, work)
+        ctrait_tables.run_arity(rep, work)
         # (2) reference ledger
         from .asan_programs import _ledger_ops
         trace = os.path.join(work, "ledger.ndjson")
